@@ -1,20 +1,16 @@
 # Per-property configuration of bin/check and of MANIFEST.json (bin/gen_manifest.py).
-#  props  : the Coq file holding ONLY the property theorems (each closed by `exact`, followed by Print Assumptions)
-#  corr   : the Coq file with the executable checker the generated cases_*.v use
-#  also   : further .v files whose compilation is an obligation of this property (generated tables)
-PROPS = {
-    "C20": {
-        "props": "theories/Props/C20.v", "corr": "theories/Corr/C20.v",
-        "technique": "Coq proof (algebraic laws over an arbitrary hash, reduction to an explicit collision) + function-level correspondence with executable Gallina SHA-256",
-        "level_text": "Machine-checked theorems, for every byte string and every hash function: parent/child address relation, trailing-slash neutrality, PostFile address, and injectivity of the segment fold up to an explicitly exhibited collision. The model (Model/Paths.v) is tied to types.MerklePath/AddToMerkle and filetree PostFile by running both on the same generated paths on every run.",
-        "level_note": "Trusted: Coq kernel + vm_compute; Gallina SHA-256 (validated against crypto/sha256 on every run); the Go harness. The relation is stated for parents not ending in '/' and slash-free non-empty children (a//b denotes three segments); injectivity is a reduction to a SHA-256 collision, not unconditional.",
-        "design_ref": "DESIGN.md §5 C20",
-        "assumptions": ["hash-dependent claims are reductions to an explicit collision", "parent does not end in '/', child is non-empty and slash-free"],
-    },
-}
-
-# Properties not (yet) claimed.  Every property is planned to be claimed (DESIGN.md §1); an id stays here only
-# until its model, theorems and correspondence are committed.
-_PENDING = "model, theorems and correspondence for this property are not committed yet (work in progress, see DESIGN.md §10)"
+# One file per property: /verif/checks/Cxx.json with the keys
+#  props       : the Coq file holding ONLY the property theorems (each closed by `exact`, followed by Print Assumptions)
+#  corr        : the Coq file with the executable checker the generated cases_*.v use
+#  also        : further .v files whose compilation is an obligation of this property (generated tables)
+#  technique, level_text, level_note, design_ref, assumptions, trusted : texts for MANIFEST.json / evidence
+import glob, json, os
+_D = os.path.join(os.path.dirname(os.path.dirname(os.path.abspath(__file__))), "checks")
+PROPS = {}
+for _f in sorted(glob.glob(os.path.join(_D, "C*.json"))):
+    PROPS[os.path.basename(_f)[:-5]] = json.load(open(_f))
 ALL_IDS = ['C01', 'C02', 'C03', 'C04', 'C05', 'C06', 'C07', 'C08', 'C09', 'C10', 'C11', 'C12', 'C13', 'C14', 'C15', 'C16', 'C17', 'C18', 'C19', 'C20']
+# Every property is planned to be claimed (DESIGN.md section 1); an id is listed as not applicable only
+# until its model, theorems and correspondence are committed.
+_PENDING = "model, theorems and correspondence for this property are not committed yet (work in progress, see DESIGN.md section 10)"
 NOT_APPLICABLE = [{"property_id": i, "reason": _PENDING} for i in ALL_IDS if i not in PROPS]
